@@ -1,6 +1,6 @@
 (* C04 -- Format/version information and reported parameters tell the truth. *)
 From Coq Require Import NArith List Bool Arith Lia.
-From FQ Require Import Proofs.PropLemmas Lib.Mat Model.Types Model.Hardcode Model.Qr Spec.Iso Spec.Oracles
+From FQ Require Import Proofs.PropLemmasBuild Lib.Mat Model.Types Model.Hardcode Model.Qr Spec.Iso Spec.Oracles
   Proofs.Tables Proofs.Build Proofs.BuildMatrix Proofs.Readout Proofs.FormatInfo.
 Import ListNotations.
 
